@@ -1,7 +1,7 @@
 """C08 — CFDP TLV and LV items: streams, implementation adapter, oracle.
 Family 10 of run_case (coq/theories/Run/DispTlv.v)."""
-import itertools
-from pathlib import Path
+import itertools, json, os, unicodedata
+from pathlib import Path, PurePosixPath, PureWindowsPath
 from harness.core import classify_exception, canon_code, run_impl
 from spacepackets.cfdp.lv import CfdpLv
 from spacepackets.cfdp.defs import ConditionCode, FaultHandlerCode
@@ -56,7 +56,17 @@ ASSUMPTIONS = [
     "them does not change pack() (judged a design decision, modelled as such)",
 ]
 TRUSTED = []
-EXPLORED_ONLY = []
+EXPLORED_ONLY = [
+    "explored_path_arguments (op 1099/0): CfdpLv.from_path fed pathlib objects (Path, PurePosixPath, PureWindowsPath, a user "
+    "subclass) built from names with '..', '.', '//', trailing '/', '~': the LV carries exactly str(path) -- the model has no "
+    "file-system object types",
+    "explored_buffers_handed_out (op 1099/1): two identical objects go through the same history; on one of them a getter that "
+    "hands out a FRESH buffer on the unchanged tree (harness/props/fresh_getters.json, measured by tools/gen_fresh_getters.py) is "
+    "read and the returned bytearray edited in place (flip / extend / truncate / clear): every later observation of the two "
+    "objects must agree -- object identity of returned buffers is outside the model",
+    "explored_back_to_back (op 1099/2): TLVs / LVs packed back to back are split purely by the length each decoded object "
+    "reports (packet_len, len(pack())), through Class.unpack / from_tlv / TlvHolder, bytes and bytearray input",
+]
 ORACLE_LIMIT = {"quick": 70000, "thorough": 300000}     # the 65536-case two-octet sweep is oracle-checked in full
 
 TLV_TYPES = [0, 1, 2, 4, 5, 6]
@@ -254,7 +264,7 @@ def _hnew(kind, path, a1, a2, a3, a4, ctx):
     if path == 5:
         buf = bytearray(a2); o = cls.unpack(buf); _scribble(buf)
         return o
-    g = CfdpTlv(_enum(TlvType, a1[0]), bytes(a2))
+    g = CfdpTlv(_enum(TlvType, a1[0]), bytearray(a2) if path in (7, 9) else bytes(a2))
     ctx["g"] = g; ctx["g0"] = (g.tlv_type, bytes(g.value), g.value_len)
     conv = {0: "to_fs_request", 1: "to_fs_response", 2: "to_msg_to_user", 4: "to_fault_handler_override", 5: "to_flow_label",
             6: "to_entity_id"}[t]
@@ -421,7 +431,245 @@ def _both(dec, view, data):
     return r1
 
 
+# ------------------------------------------------------------------ explorations outside the model (op 1099)
+class _UserPath(PurePosixPath):
+    """a caller's own path class"""
+
+
+PATH_CLASSES = [Path, PurePosixPath, PureWindowsPath, _UserPath]
+X_PATHS, X_FRESH, X_SPLIT = 0, 1, 2
+
+
+def _x_paths(a):
+    """CfdpLv.from_path(p) carries exactly str(p) -- what pathlib itself yields for the object -- for every path class;
+    from_str(s) carries exactly s"""
+    pcls = PATH_CLASSES[a[0][1]]
+    s = bytes(a[1]).decode()
+    p = pcls(s)
+    for what, arg, want in (("from_path", p, str(p).encode()), ("from_str", s, s.encode())):
+        try:
+            lv = getattr(CfdpLv, what)(arg)
+        except ValueError:
+            if len(want) > 255:
+                continue
+            return ("CfdpLv.%s/refused" % what, "%s(%r) raised ValueError" % (what, arg))
+        if len(want) > 255:
+            return ("CfdpLv.%s/too-long-accepted" % what, "%s(%r): %d octets accepted" % (what, arg, len(want)))
+        if bytes(lv.value) != want or bytes(lv.pack()) != bytes([len(want)]) + want or lv.packet_len != len(want) + 1:
+            return ("CfdpLv.%s/value-is-not-the-text-of-the-argument" % what,
+                    "%s(%r) carries %r, str() of the argument is %r" % (what, arg, bytes(lv.value), want))
+        back = CfdpLv.unpack(bytes(lv.pack()) + b"\xaa")
+        if bytes(back.value) != want:
+            return ("CfdpLv.%s/roundtrip" % what, "%r decoded as %r" % (want, bytes(back.value)))
+    return None
+
+
+GETTERS = ["value", "pack()", "tlv.value", "tlv.pack()", "filestore_msg.value", "filestore_msg.pack()",
+           "(caller) value argument", "(caller) filestore_msg argument.value", "(caller) from_tlv argument.value"]
+EDITS = ["flip every octet", "extend", "truncate", "flip and extend", "clear", "insert in front"]
+_FRESH = None
+
+
+def fresh_getters():
+    """{class name: {getter: [observations that stay the same when the buffer it returned is edited]}} as measured on the
+    UNCHANGED tree by tools/gen_fresh_getters.py; only getters whose edit leaves pack() and packet_len alone are kept"""
+    global _FRESH
+    if _FRESH is None:
+        try:
+            j = json.load(open(os.path.join(os.path.dirname(__file__), "fresh_getters.json")))[ID]
+        except Exception:
+            j = {}
+        _FRESH = {c: {g: set(e["stable"]) for g, e in gs.items() if e.get("fresh")} for c, gs in j.items()}
+    return _FRESH
+
+
+def _get_buffer(o, ctx, g):
+    """what getter number g hands out (None: does not apply to this object now)"""
+    try:
+        if g == 0:
+            return o.value
+        if g == 1:
+            return o.pack()
+        if g in (2, 3):
+            t = getattr(o, "tlv", None)
+            return None if t is None else (t.value if g == 2 else t.pack())
+        if g in (4, 5):
+            m = getattr(o, "filestore_msg", None)
+            return None if m is None else (m.value if g == 4 else m.pack())
+        if g == 6:
+            return ctx.get("buf")
+        if g == 7:
+            return ctx["lv"].value if "lv" in ctx else None
+        if g == 8:
+            return ctx["g"].value if "g" in ctx else None
+    except Exception:
+        return None
+    return None
+
+
+def _edit(buf, how):
+    if how in (0, 3):
+        for i in range(len(buf)):
+            buf[i] ^= 0xFF
+    if how in (1, 3):
+        buf.extend(b"\x5a\xa5\x00")
+    if how == 2:
+        del buf[len(buf) // 2:]
+    if how == 4:
+        del buf[:]
+    if how == 5:
+        buf[0:0] = b"\x07\x01"
+
+
+def _observe(kind, o):
+    """every public view of the object, named; the ones that (re)build a cache come last"""
+    def w(f):
+        try:
+            r = f()
+            return [0] + (list(r) if isinstance(r, (bytes, bytearray, list, tuple)) else [int(r)])
+        except Exception as e:
+            return [1, canon_code(classify_exception(e))]
+    obs = []
+    if kind in (0, 1):
+        if kind == 1:
+            obs.append(("tlv_type", w(lambda: o.tlv_type)))
+        obs += [("value", w(lambda: o.value)), ("value_len", w(lambda: o.value_len))]
+    elif kind in (10, 11):
+        obs += [("action_code", w(lambda: o.action_code)), ("first_file_name", w(lambda: o.first_file_name.encode())),
+                ("second_file_name", w(lambda: o.second_file_name.encode()))]
+        if kind == 11:
+            obs += [("status_code", w(lambda: o.status_code)), ("filestore_msg.value", w(lambda: o.filestore_msg.value)),
+                    ("filestore_msg.value_len", w(lambda: o.filestore_msg.value_len))]
+        obs.append(("tlv (the cached CfdpTlv, before pack)", w(lambda: _cache_view(o.tlv))))
+    else:
+        obs += [("tlv_type", w(lambda: o.tlv_type)), ("tlv.tlv_type", w(lambda: o.tlv.tlv_type)), ("tlv.value_len", w(lambda: o.tlv.value_len))]
+        if kind == 14:
+            obs += [("condition_code", w(lambda: o.condition_code)), ("handler_code", w(lambda: o.handler_code))]
+    obs += [("packet_len", w(lambda: o.packet_len)), ("pack()", w(o.pack)), ("packet_len after pack", w(lambda: o.packet_len))]
+    if kind >= 10:
+        obs.append(("value", w(lambda: o.value)))
+    if kind in (10, 11):
+        obs.append(("tlv (the cached CfdpTlv, after pack / value)", w(lambda: _cache_view(o.tlv))))
+    return obs
+
+
+def _x_fresh(a, measure=False):
+    """twins: the same construction and the same operations; on twin B getter g is read at the marked positions and the
+    bytearray it returned is edited in place.  Returns (class name, getter, was a bytearray edited, names of the observations
+    in which the twins differ)"""
+    kind, path = a[1]
+    g, how, mask = a[2]
+    ops = a[7:]
+    ca, cb = {}, {}
+    try:
+        A = _hnew(kind, path, a[3], a[4], a[5], a[6], ca)
+        B = _hnew(kind, path, a[3], a[4], a[5], a[6], cb)
+    except Exception:
+        return (HNAME[kind], GETTERS[g], False, [], False, [])
+    edited, differ, applied, names = False, [], False, []
+    for n in range(len(ops) + 1):
+        if (mask >> n) & 1:
+            _get_buffer(A, ca, g)                     # reading alone may fill a cache: both twins read, one edits
+            buf = _get_buffer(B, cb, g)
+            applied = applied or buf is not None
+            if isinstance(buf, bytearray):
+                _edit(buf, how); edited = True
+        for (nm, x), (_, y) in zip(_observe(kind, A), _observe(kind, B)):
+            if nm not in names:
+                names.append(nm)
+            if x != y and nm not in differ:
+                differ.append(nm)
+        if n < len(ops):
+            ra = _hstatus(lambda: _hstep(kind, A, ops[n], ca))
+            rb = _hstatus(lambda: _hstep(kind, B, ops[n], cb))
+            if ra != rb and "result of the next operation" not in differ:
+                differ.append("result of the next operation")
+    return (type(A).__name__, GETTERS[g], edited, differ, applied, names + ["result of the next operation"])
+
+
+def _x_fresh_check(a):
+    cls, getter, edited, differ = _x_fresh(a)[:4]
+    stable = fresh_getters().get(cls, {}).get(getter)
+    if stable is None:
+        return None
+    bad = [d for d in differ if d in stable]
+    if bad:
+        return ("%s.%s/editing-the-returned-buffer-changes-the-object" % (cls, getter),
+                "%s built by path %d: after `%s` was read and the returned bytearray edited (%s) the object differs from an untouched "
+                "twin in %s (history %s)" % (cls, a[1][1], getter, EDITS[a[2][1]], bad, [x[:6] for x in a[7:]]))
+    return None
+
+
+def _walk_units(data, mode):
+    """split a buffer of back-to-back items purely by the lengths the decoded objects report; yields (offset, reported
+    length, re-packed octets)"""
+    conv = {0: "to_fs_request", 1: "to_fs_response", 2: "to_msg_to_user", 4: "to_fault_handler_override", 5: "to_flow_label",
+            6: "to_entity_id"}
+    i, out = 0, []
+    while i < len(data):
+        rest = data[i:]
+        if mode == 5:
+            o = CfdpLv.unpack(bytes(rest))
+        elif mode == 4:
+            o = CfdpTlv.unpack(bytes(rest))
+        else:
+            t = rest[0]
+            if t not in CLS:
+                raise ValueError("type octet %d at offset %d" % (t, i))
+            if mode == 0:
+                o = CLS[t].unpack(bytes(rest))
+            elif mode == 1:
+                buf = bytearray(rest); o = CLS[t].unpack(buf); _scribble(buf)
+            elif mode == 2:
+                o = CLS[t].from_tlv(CfdpTlv.unpack(bytes(rest)))
+            else:
+                o = getattr(TlvHolder(CfdpTlv.unpack(bytes(rest))), conv[t])()
+        n = o.packet_len
+        p = bytes(o.pack())
+        out.append((i, n, p))
+        if n <= 0:
+            raise ValueError("reported length %d" % n)
+        i += n
+    return out
+
+
+def _x_split(a):
+    mode = a[0][1]
+    data = a[1]
+    hdr = 1 if mode == 5 else 2
+    want, i = [], 0
+    while i < len(data):                     # the declared boundaries
+        n = hdr + data[i + hdr - 1]
+        want.append((i, n, bytes(data[i:i + n]))); i += n
+    name = "CfdpLv.unpack" if mode == 5 else "CfdpTlv.unpack" if mode == 4 else \
+        ["<Class>.unpack", "<Class>.unpack(bytearray)", "<Class>.from_tlv", "TlvHolder.to_*"][mode]
+    try:
+        got = _walk_units(data, mode)
+    except Exception as e:
+        return ("%s/back-to-back-units-not-split-by-reported-length" % name,
+                "walking %d units by the reported lengths raised %r" % (len(want), e))
+    if got != want:
+        k = next((j for j in range(min(len(got), len(want))) if got[j] != want[j]), min(len(got), len(want)))
+        return ("%s/back-to-back-units-not-split-by-reported-length" % name,
+                "unit %d: declared (offset, length, octets) %s, the decoded object reports %s" % (
+                    k, want[k:k + 1] and (want[k][0], want[k][1], list(want[k][2][:12])), got[k:k + 1] and (got[k][0], got[k][1], list(got[k][2][:12]))))
+    return None
+
+
+def _explore(a):
+    sub = a[0][0]
+    if sub == X_PATHS:
+        return _x_paths(a)
+    if sub == X_FRESH:
+        return _x_fresh_check(a)
+    if sub == X_SPLIT:
+        return _x_split(a)
+    raise RuntimeError("bad exploration")
+
+
 def impl(op, a):
+    if op == 1099:
+        return [[1]] if _explore(a) is None else [[0, a[0][0]]]
     if op == 1060:
         return _history(a)
     if op == 1000:
@@ -565,6 +813,51 @@ CH = [[0x41], [0x7f], [0x00], [0xc2, 0x80], [0xc3, 0xa4], [0xdf, 0xbf], [0xe0, 0
       [0xf4, 0x8f, 0xbf, 0xbf], [0x2f], [0x2e],
       # characters text codecs treat specially: U+FEFF (byte-order mark), U+2028, NEL, U+FFFE, space, LF
       [0xef, 0xbb, 0xbf], [0xe2, 0x80, 0xa8], [0xc2, 0x85], [0xef, 0xbf, 0xbe], [0x20], [0x0a]]
+# name CONTENT (round 4).  A file name is an opaque octet string to the protocol; these fragments change under some text
+# transformation a well-meaning decoder / encoder might apply (each one verified with unicodedata):
+NORM = [
+    [0x65, 0xcc, 0x81],                                       # e + U+0301: not NFC-stable (what HFS+/APFS list)
+    [0xc3, 0xa9],                                             # U+00E9 precomposed: not NFD-stable
+    [0xe2, 0x84, 0xab], [0xe2, 0x84, 0xa6], [0xe2, 0x84, 0xaa],   # ANGSTROM / OHM / KELVIN SIGN: singletons
+    [0xef, 0xa4, 0x80], [0xef, 0xa7, 0xbf], [0xef, 0xa8, 0xb0], [0xef, 0xab, 0x99],   # CJK compatibility ideographs U+F900..U+FAD9
+    [0xe1, 0x84, 0x80, 0xe1, 0x85, 0xa1],                     # Hangul jamo L V (compose to U+AC00)
+    [0xe1, 0x84, 0x92, 0xe1, 0x85, 0xb5, 0xe1, 0x86, 0xab],   # Hangul jamo L V T
+    [0xea, 0xb0, 0x80],                                       # U+AC00 precomposed syllable: not NFD-stable
+    [0x71, 0xcc, 0x87, 0xcc, 0xa3],                           # q + dot above + dot below: canonical reordering
+    [0xcd, 0xb4], [0xcd, 0x80], [0xe0, 0xa5, 0x98],           # U+0374, U+0340, U+0958: composition exclusions / singletons
+    [0xef, 0xac, 0x81], [0xef, 0xbc, 0xa1], [0xef, 0xbc, 0x8f], [0xef, 0xbd, 0xa1],   # fi ligature, fullwidth A, fullwidth solidus, halfwidth stop: NFKC
+    [0xc2, 0xb5], [0xc2, 0xb2], [0xc2, 0xbd], [0xe2, 0x80, 0xa4],                     # micro sign, superscript 2, one half, one dot leader: NFKC
+    [0xc3, 0x9f], [0xc4, 0xb0], [0xc7, 0x85], [0xe1, 0xba, 0x9b, 0xcc, 0xa3],         # sharp s, I with dot, Dz digraph: case mappings change the length
+    [0xc2, 0xa0], [0xe3, 0x80, 0x80], [0xe2, 0x80, 0x80], [0xe2, 0x80, 0x8b], [0x09], [0x0d],   # spaces str.strip() removes, zero width space, TAB, CR
+]
+def _unstable(form):
+    return [f for f in NORM if unicodedata.normalize(form, bytes(f).decode()) != bytes(f).decode()]
+
+
+NORM_NFC = _unstable("NFC")
+NORM_NFD = [f for f in _unstable("NFD") if f not in NORM_NFC]
+NORM_NFKC = [f for f in _unstable("NFKC") if f not in NORM_NFC and f not in NORM_NFD]
+NORM_CASE = [f for f in NORM if len({bytes(f).decode(), bytes(f).decode().lower(), bytes(f).decode().upper(), bytes(f).decode().casefold()}) > 1]
+
+
+def norm_name(rng):
+    """one name that changes under each of NFC, NFD, NFKC, the case mappings and (half of the time) strip()"""
+    parts = [rng.choice(NORM_NFC), rng.choice(NORM_NFD), rng.choice(NORM_NFKC), rng.choice(NORM_CASE)]
+    rng.shuffle(parts)
+    return [x for p_ in parts for x in p_] + rng.choice([[], [0x20], [0x09]])
+
+
+# names a path library would rewrite (collapsed '..', '.', '//', trailing '/', home directory, drive / backslash forms)
+PATHY = [list(x.encode()) for x in (
+    "..", "../x", "a/..", "/a/../b", "a/../../b", "/..", "a/../", ".", "./a", "a/.", "a/./b", "a//b", "//a", "///a", "a/", "/",
+    "~", "~/x", "~root/x", "C:\\x", "a\\..\\b", " a", "a ", "a/ ", "$HOME/x", "%2e%2e/x", "....", "..a", "a..")]
+PATH_PRE = [list(x.encode()) for x in ("../", "/a/../", "./", "//", "~/", "/../", "a//", "../../", " ")]
+PATH_SUF = [list(x.encode()) for x in ("/..", "/.", "/", "/../x", "//x", "/~", " ", ".")]
+# content that repeats the format's own delimiters: an LV / TLV / filestore header inside a value or a name, the marker of the
+# reserved messages, every octet equal to the length octet in front of it
+MAGIC = [[1, 1], [2, 2, 2], [3, 3, 3, 3], [5] * 5, [0, 0], [0x63, 0x66, 0x64, 0x70], [2, 5, 0x63, 0x66, 0x64, 0x70, 0],
+         [0, 3, 0, 1, 0x41], [1, 4, 0, 1, 0x41, 0], [6, 1, 5], [4, 1, 0x21], [0x10, 1, 0x41], [0x20, 1, 0x41, 1, 0x42]]
+SPECIAL_NAMES = NORM + PATHY + MAGIC
 BADUTF = [[0xff], [0x80], [0xc0, 0x80], [0xc3], [0xe2, 0x82], [0xed, 0xa0, 0x80], [0xf4, 0x90, 0x80, 0x80],
           [0xe0, 0x80, 0x80], [0xf0, 0x80, 0x80, 0x80], [0xf5, 0x80, 0x80, 0x80], [0xc3, 0x28], [0x41, 0xfe]]
 LENS = [0, 1, 2, 3, 63, 64, 127, 128, 200, 250, 251, 252, 253, 254, 255]
@@ -576,14 +869,24 @@ def rbytes(rng, n):
 
 def rname(rng, n, ascii_only=False):
     """valid UTF-8 of exactly n octets"""
-    out = []
-    if not ascii_only and n >= 3 and rng.random() < 0.08:
+    out, tail = [], []
+    r = rng.random()
+    if not ascii_only and n >= 3 and r < 0.08:
         out = [0xef, 0xbb, 0xbf]          # a name that STARTS with U+FEFF (a "utf-8-sig" style decoder drops it)
-    while len(out) < n:
-        c = [rng.randrange(0x20, 0x7f)] if ascii_only or rng.random() < 0.5 else rng.choice(CH)
-        if len(out) + len(c) <= n:
+    elif n >= 1 and r < 0.2:              # path-shaped: up-level references, '.', '//', trailing '/', '~', blanks at the ends
+        pre, suf = rng.choice(PATH_PRE + [[]]), rng.choice(PATH_SUF + [[]])
+        if len(pre) + len(suf) <= n:
+            out, tail = list(pre), list(suf)
+    elif n >= 1 and r < 0.26:             # the format's own delimiters inside the name
+        m = rng.choice(MAGIC)
+        if len(m) <= n:
+            out = list(m)
+    pool = CH + (NORM if rng.random() < 0.5 else [])
+    while len(out) + len(tail) < n:
+        c = [rng.randrange(0x20, 0x7f)] if ascii_only or rng.random() < 0.5 else rng.choice(pool)
+        if len(out) + len(tail) + len(c) <= n:
             out += c
-    return out
+    return out + tail
 
 
 def rstatus(rng, action):
@@ -593,16 +896,26 @@ def rstatus(rng, action):
 def valid_units(rng, n=1):
     """packed valid TLVs of every kind: list of (type, octets)"""
     out = []
-    for _ in range(n):
+    for k in range(n):
         out.append((6, tlv_bytes(6, rbytes(rng, rng.choice([1, 2, 4, 8])))))
         out.append((5, tlv_bytes(5, rbytes(rng, rng.randrange(0, 12)))))
         out.append((2, tlv_bytes(2, rbytes(rng, rng.randrange(0, 12)))))
         out.append((4, tlv_bytes(4, [rng.randrange(256)])))
+        # every other unit carries a name that is not stable under normalisation / path clean-up / contains delimiters
+        sp = (lambda: rng.choice(NORM_NFC) if k % 4 == 0 else rng.choice([norm_name(rng), rng.choice(SPECIAL_NAMES)])) \
+            if k % 2 == 0 else (lambda: rname(rng, rng.randrange(0, 9)))
         a = rng.choice(ACTIONS)
-        out.append((0, tlv_bytes(0, fs_value(a, 0, rname(rng, rng.randrange(0, 9)), rname(rng, rng.randrange(0, 9))))))
+        out.append((0, tlv_bytes(0, fs_value(a, 0, sp(), rname(rng, rng.randrange(0, 9))))))
         a = rng.choice(ACTIONS)
         out.append((1, tlv_bytes(1, fs_value(a, rstatus(rng, a) & 15, rname(rng, rng.randrange(0, 9)),
-                                             rname(rng, rng.randrange(0, 9)), rbytes(rng, rng.randrange(0, 6))))))
+                                             sp() if a in TWO else rname(rng, rng.randrange(0, 9)), rbytes(rng, rng.randrange(0, 6))))))
+        if k % 2 == 0:
+            a = rng.choice(TWO)
+            out.append((0, tlv_bytes(0, fs_value(a, 0, rname(rng, rng.randrange(0, 4)), norm_name(rng)))))
+            a = rng.choice(ACTIONS)
+            out.append((1, tlv_bytes(1, fs_value(a, rstatus(rng, a) & 15, norm_name(rng), sp(), rng.choice(MAGIC)))))
+            t = rng.choice([2, 5])
+            out.append((t, tlv_bytes(t, rng.choice(MAGIC))))
     return out
 
 
@@ -626,8 +939,14 @@ def rname_tail(rng, n):
 
 
 def rbytes_special(rng, n):
-    """octet strings with special patterns: all 0x80 / 0xFF / 0x00, or random"""
-    k = rng.randrange(5)
+    """octet strings with special patterns: all 0x80 / 0xFF / 0x00, every octet equal to the length octet in front of the
+    value, items of the format itself (LV / TLV / reserved-message marker) repeated, or random"""
+    k = rng.randrange(8)
+    if k == 5:
+        return [n & 255] * n
+    if k == 6:
+        m = rng.choice(MAGIC)
+        return (m * (n // len(m) + 1))[:n]
     return [0x80] * n if k == 0 else [0xFF] * n if k == 1 else [0] * n if k == 2 else rbytes(rng, n)
 
 
@@ -773,6 +1092,59 @@ def hist_systematic(rng, kinds=KINDS):
                         shapes.append([[P_GEN], o, [P_PACK], [P_GEN], [P_VALUE]])
                     out.append((1060, [[kind, path], a1, a2, a3, a4] + rng.choice(shapes)))
                     out.append((1060, [[kind, path], a1, a2, a3, a4] + rng.choice(shapes)))
+    return out
+
+
+
+def fresh_case(rng, kind, path, g):
+    """a twin history (op 1099/1): construction, up to 8 operations, getter g read + edited at 1..3 positions"""
+    a1, a2, a3, a4 = hist_new_args(rng, kind, path)
+    st = {"action": a1[0] if kind in (10, 11) and path in (0, 1) else None}
+    codes = sorted(APPLIES[kind])
+    weights = [5 if c == P_PACK else 3 if c in (P_VALUE, P_GEN) else 1 if c in (P_SETPLEN, P_TLVNONE) else 2 for c in codes]
+    ops = [hist_op(rng, kind, rng.choices(codes, weights)[0], st) for _ in range(rng.choice([0, 1, 2, 3, 5, 8]))]
+    mask = 0
+    for _ in range(rng.choice([1, 1, 2, 3])):
+        mask |= 1 << rng.randrange(len(ops) + 1)
+    return (1099, [[X_FRESH], [kind, path], [g, rng.randrange(len(EDITS)), mask], a1, a2, a3, a4] + ops)
+
+
+def fresh_cases(rng, reps, every_getter=False):
+    out = []
+    for kind in KINDS:
+        ok = fresh_getters().get(HNAME[kind], {})
+        for path in PATHS[kind]:
+            for g in range(len(GETTERS)):
+                if every_getter or GETTERS[g] in ok:
+                    out += [fresh_case(rng, kind, path, g) for _ in range(reps)]
+    return out
+
+
+def path_cases(rng, big):
+    names = list(PATHY) + [list(f) for f in NORM] + [[], [0x61], list("/data/current/../archive".encode()), list("../listings/a.txt".encode())]
+    for pre in PATH_PRE:
+        for suf in PATH_SUF:
+            names.append(pre + rname(rng, rng.randrange(0, 5), True) + suf)
+    for n in [250, 253, 254, 255, 256, 257, 300]:      # the text of the path object is shorter / longer than the string it was made from
+        names.append((list(b"a//") * 100)[:n]); names.append((list(b"./") * 3 + [0x62] * 300)[:n]); names.append((list(b"../") * 100)[:n])
+        names.append(rname(rng, n))
+    for _ in range(300 if big else 60):
+        names.append(rname(rng, rng.choice([1, 2, 3, 5, 8, 13, 40])))
+    return [(1099, [[X_PATHS, pc], nm]) for nm in names for pc in range(len(PATH_CLASSES))]
+
+
+def split_cases(rng, big):
+    out = []
+    for _ in range(400 if big else 120):
+        units = [d for (_, d) in valid_units(rng, 2)]
+        rng.shuffle(units)
+        k = rng.choice([1, 2, 3, 6, len(units)])
+        data = [x for d in units[:k] for x in d]
+        for mode in range(5):
+            out.append((1099, [[X_SPLIT, mode], data]))
+        lvs = [lv_bytes(rng.choice([rbytes_special(rng, rng.choice([0, 1, 2, 7, 255])), rng.choice(SPECIAL_NAMES), rname(rng, rng.randrange(0, 9))]))
+               for _ in range(rng.choice([1, 2, 5]))]
+        out.append((1099, [[X_SPLIT, 5], [x for d in lvs for x in d]]))
     return out
 
 
@@ -980,6 +1352,38 @@ def streams(tier, rng):
                         cases.append((1060, [[11 if resp else 10, rng.choice([4, 5])], [], d, [], [], [P_PACK], [P_VALUE], [P_PACK]]))
                     cases.append((1060, [[11 if resp else 10, rng.choice([0, 1])], a1, n1, n2, m, [P_PACK], [P_PACK], [P_VALUE]]))
     yield "coinciding_limits", "exact", cases
+    # 5e. name CONTENT: every fragment that changes under normalisation / case mapping / path clean-up, and the format's own
+    #     delimiters, alone and embedded, as first / second name, through constructors, decoders, converters and histories
+    cases = []
+    for f in SPECIAL_NAMES:
+        forms = [list(f), [0x61] + list(f), list(f) + [0x2e, 0x62], list(f) * 2, rname(rng, 3) + list(f) + rname(rng, 2)]
+        for nm in (forms if big else [forms[0], rng.choice(forms[1:3]), rng.choice(forms[3:])]):
+            a1, a2 = rng.choice([0, 1, 5, 6, 7, 8]), rng.choice(TWO)
+            other = rng.choice(SPECIAL_NAMES)
+            cases.append((1007, [nm])); cases.append((1043, [nm]))
+            for (a, n1, n2) in ((a1, nm, []), (a2, nm, other), (a2, other, nm)):
+                st = rstatus(rng, a); m = rng.choice(MAGIC + [[]])
+                cases.append((1023, [[a], n1, n2])); cases.append((1026, [[a, st], n1, n2, m]))
+                v0, v1 = fs_value(a, 0, n1, n2), fs_value(a, st & 15, n1, n2, m)
+                cases.append((1024, [tlv_bytes(0, v0) + rbytes(rng, 2)])); cases.append((1025, [[0], v0])); cases.append((1030, [[1], [0], v0]))
+                cases.append((1027, [tlv_bytes(1, v1)])); cases.append((1028, [[1], v1])); cases.append((1031, [[1], [1], v1]))
+            cases.append((1060, [[10, rng.choice([0, 1])], [a2, 0], nm, other, [], [P_PACK], [P_FIRST] + other, [P_SECOND] + nm, [P_VALUE], [P_PACK]]))
+            cases.append((1060, [[11, rng.choice([4, 5])], [], tlv_bytes(1, v1), [], [], [P_PACK], [P_VALUE], [P_PACK]]))
+            cases.append((1060, [[0, 3], [], nm, [], [], [P_PACK], [P_PACK]]))
+    for _ in range(60 if big else 15):
+        nm, other = norm_name(rng), norm_name(rng)
+        a = rng.choice(TWO); st = rstatus(rng, a)
+        cases.append((1023, [[a], nm, other])); cases.append((1026, [[a, st], other, nm, []]))
+        cases.append((1024, [tlv_bytes(0, fs_value(a, 0, nm, other))])); cases.append((1027, [tlv_bytes(1, fs_value(a, st & 15, other, nm, [7]))]))
+    for m in MAGIC:            # LV / TLV values made of the format's own items
+        for v in (m, m * 3, [len(m)] + m, [len(m) + 2] + m):
+            cases.append((1000, [v])); cases.append((1001, [lv_bytes(v) + m]))
+            for t in TLV_TYPES:
+                cases.append((1003, [[t], v])); cases.append((1004, [tlv_bytes(t, v) + m]))
+            for t in (2, 5, 6):
+                cases.append((NEW_OP[t], [v])); cases.append((UNPACK_OP[t], [tlv_bytes(t, v) + m])); cases.append((FROM_OP[t], [[t], v]))
+                cases.append((HOLDER_OP[t], [[1], [t], v]))
+    yield "name_content", "exact", cases
     # 6. targeted malformed: every truncation, substitutions in type/length/first value octets, inner LV lengths,
     #    invalid UTF-8 in names
     cases = []
@@ -1027,6 +1431,11 @@ def streams(tier, rng):
             for _ in range(400 if big else 90):
                 cases.append(hist_random(rng, kind, path))
     yield "histories_random", "exact", cases
+    # 6c. explorations outside the model (op 1099): pathlib arguments, buffers handed out by getters, streams of items split
+    #     by the reported lengths
+    yield "explored_path_arguments", "exact", path_cases(rng, big)
+    yield "explored_buffers_handed_out", "exact", fresh_cases(rng, 12 if big else 3)
+    yield "explored_back_to_back", "exact", split_cases(rng, big)
     # 7. garbage
     cases = []
     for _ in range(6000 if big else 1200):
@@ -1252,6 +1661,16 @@ def oracle(case, ires, sres):
     code = ires[0][1] if err else None
     if op == 1060:
         return _hist_oracle(a, ires)
+    if op == 1099:
+        if ires == [[0], [1]]:
+            return None
+        try:
+            r = _explore(a)
+        except Exception as e:
+            r = ("exploration-%d/raises" % a[0][0], "%r" % (e,))
+        if r is None:
+            r = ("exploration-%d/not-reproducible" % a[0][0], "the adapter answered %s" % (ires[:2],))
+        return ("C08/" + r[0], r[1])
     if err and code == 99 and (op in (1001, 1004) or op in UNPACK_OP.values()):
         try:
             impl(op, a); why = "not reproducible"
@@ -1447,14 +1866,26 @@ def _valid(t):
 
 
 def _valid_lv(rng):
-    return [lv_bytes(rbytes(rng, n)) for n in (0, 1, 2, 7, 255)]
+    return [lv_bytes(rbytes(rng, n)) for n in (0, 1, 2, 7, 255)] + [lv_bytes(m) for m in ([1, 1], [3, 3, 3, 3], [0x63, 0x66, 0x64, 0x70])]
 
 
+def _rep(plen_at, pack_at):
+    """the lengths a decoded object reports, read from the adapter's view: packet_len and the size of pack()"""
+    def f(view):
+        out = [view[plen_at][0]]
+        if view[pack_at][:1] == [0]:
+            out.append(len(view[pack_at]) - 1)
+        return out
+    return f
+
+
+_REPORTED = {0: _rep(3, 4), 1: _rep(4, 5), 2: _rep(3, 4), 4: _rep(4, 5), 5: _rep(3, 4), 6: _rep(3, 4)}
 DECODERS = [
-    {"op": 1001, "name": "CfdpLv.unpack", "extra": [], "valid": _valid_lv, "declared_len": lambda b: b[0] + 1},
+    {"op": 1001, "name": "CfdpLv.unpack", "extra": [], "valid": _valid_lv, "declared_len": lambda b: b[0] + 1,
+     "reported_len": lambda view: [view[1][0], len(view[2])]},
     {"op": 1004, "name": "CfdpTlv.unpack", "extra": [], "valid": lambda rng: [d for (_, d) in valid_units(rng, 2)],
-     "declared_len": lambda b: b[1] + 2},
+     "declared_len": lambda b: b[1] + 2, "reported_len": _rep(2, 3)},
 ] + [
     {"op": UNPACK_OP[t], "name": CLS[t].__name__ + ".unpack", "extra": [], "valid": _valid(t),
-     "declared_len": lambda b: b[1] + 2} for t in TLV_TYPES
+     "declared_len": lambda b: b[1] + 2, "reported_len": _REPORTED[t]} for t in TLV_TYPES
 ]
